@@ -12,7 +12,7 @@ VIOL = {
 def violating(ctx, res):
     """round-2 addendum: mismatching histories on which the OBSERVATION violates the property become oracle
        hits with the history as the failing input"""
-    pairs = re.findall(r"\((\d+),\s*(\d+)\)", res.get("c05_violating", "") or "")
+    pairs = re.findall(r"\(\s*(\d+)(?:%nat)?\s*,\s*(\d+)(?:%nat)?\s*\)", res.get("c05_violating", "") or "")
     if not pairs:
         return
     idx = os.path.join(ctx.work, "CasesC05.idx")
@@ -39,6 +39,7 @@ def run(ctx):
     return standard(ctx,
         props=[("Props.C05", ["c05_inv", "c05_no_cross_user", "c05_onetime", "c05_expired",
                               "c05_fresh_values", "c05_value_fixed",
+                              "c05_cached_no_write", "c05_cached_no_cross_user", "c05_cached_expired", "c05_old_cached_totp_refuted",
                               "c05_profile_exact", "c05_profile_save", "c05_profile_order", "c05_profile_users", "c05_like_lookup_refuted",
                               "c05_old_poll_refuted", "c05_old_totp_replay_refuted", "c05_old_challenge_refuted", "c05_old_cert_cookie_refuted",
                               "c05_cookie_expired", "c05_first_cookie_refuted", "c05_old_vip_expiry_refuted"])],
@@ -47,6 +48,8 @@ def run(ctx):
         trusted=["external verifiers are environment: the fake VIP endpoint, the TOTP algorithm (pquerna/otp), ECDSA / the U2F and WebAuthn libraries decide whether a presented value is right; the model carries their answer and whom it is about",
                  "time steps are simulated by moving what the handlers read (LastSuccessfullTOTPCounter, BootstrapOTP.ExpiresAt, localAuthData.ExpiresAt); the per-user TOTP throttle (C14) is cleared before every TOTP attempt",
                  "what clients hold ages with the simulated clock too: on a time step every issued auth cookie and CLI token is re-signed by the harness with iat/nbf/exp moved back (same claims otherwise, server key)",
+                 "the Okta authn API is a fake (state tokens, pass codes, push approval as the harness decides); its cached answers age by moving recentAuth[*].expires through reflect/unsafe",
+                 "a request 'served from the cache' = the cache database refreshed from the primary immediately before, and remoteDBQueryTimeout = 0 for the duration of the request",
                  "one-time values are identified by content: the harness numbers the distinct challenge / OTP / transaction byte strings in order of first appearance (two different values never collide: 32 random bytes)"],
         assumptions=["signatures are unforgeable: the adversary attaches only cookies / tokens the server issued (by position in the list of everything issued)"],
         timeout=1500)
